@@ -681,6 +681,81 @@ example (s : List Poly) :
       · have e : bigNormalizeOff false 1 4 2 (cnvOffsetSplit 4 4).2 (((([[3], [0]] : Col) :: [[[1], [0]]]).map (fun x => Core.cnvByConstCol 1
             (2 + [(2 : Int)].length - (cnvOffsetSplit 4 4).1) (cnvOffsetSplit 4 4).1 x [2])).getD 1 []) 4 = some [[2], [0]] := by decide
         have hC' := e.symm.trans hC; injection hC' with hC'; subst hC'; decide) s
+/-- **`mul_const_assign_decrypts`** — `glwe_mul_const_assign` (accumulator of `res.size = rs` limbs), composed: the result phase, rescaled by
+`β^{F−rs}`, plus `B·`(the explicit dropped limbs `rs ≤ k < F` of the full convolution + `β^F·`top limbs) is `B·β·val(phase a)·val(b)` plus the rescaled
+normalisation error. -/
+theorem mul_const_assign_decrypts {N : Nat} (hN : 0 < N) (big128 : Bool) (rb rs off b sa : Nat) (a0 : Col) (as : List Col) (cst : List Int)
+    (res : List Col) (h : mulConst true big128 N rb rs off b (a0 :: as) cst = some res)
+    (h0 : a0.length = sa) (hall : ∀ x ∈ as, x.length = sa) (hx0 : ∀ l ∈ a0, l.length = N) (hxs : ∀ x ∈ as, ∀ l ∈ x, l.length = N)
+    (hsa : 1 ≤ sa) (hsb : 1 ≤ cst.length) (hhi : (cnvOffsetSplit b off).1 ≤ sa + cst.length - 1)
+    (hR : rs ≤ sa + cst.length - (cnvOffsetSplit b off).1)
+    (hres : C02L.GWF N (Ks.mkCt rb N res))
+    (A B : Int) (E : Nat → Poly) (hE : ∀ i, (E i).length = N)
+    (hK : ∀ i, i < as.length + 1 → ∀ C,
+      bigNormalizeOff big128 N rb rs (cnvOffsetSplit b off).2
+        (((a0 :: as).map (fun x => cnvByConstCol N rs (cnvOffsetSplit b off).1 x cst)).getD i []) b = some C →
+      polyScale A (C02L.valP rb N C) = polyAdd (polyScale B (C02L.valP b N
+        (((a0 :: as).map (fun x => cnvByConstCol N rs (cnvOffsetSplit b off).1 x cst)).getD i []))) (E i))
+    (s : List Poly) :
+    ((2 : Ks.R N) ^ b) ^ (sa + cst.length - (cnvOffsetSplit b off).1 - rs) * ((A : Ks.R N) * Ks.ι N (C02L.valP rb N (Core.Ops.phase s (Ks.mkCt rb N res))))
+      + (B : Ks.R N) * (∑ k ∈ Finset.Ico rs (sa + cst.length - (cnvOffsetSplit b off).1),
+          Ks.ι N (Ks.phaseRow s (((a0 :: as).map (fun x => cnvByConstCol N (sa + cst.length - (cnvOffsetSplit b off).1) (cnvOffsetSplit b off).1 x cst)).map
+            (fun col => limbOr0 N col k))) * ((2 : Ks.R N) ^ b) ^ (sa + cst.length - (cnvOffsetSplit b off).1 - 1 - k)
+        + ((2 : Ks.R N) ^ b) ^ (sa + cst.length - (cnvOffsetSplit b off).1) * (constTop N ((2 : Ks.R N) ^ b) a0 cst (cnvOffsetSplit b off).1
+          + ∑ i ∈ Finset.range (min s.length as.length), Ks.ι N (s.getD i []) * constTop N ((2 : Ks.R N) ^ b) (as.getD i []) cst (cnvOffsetSplit b off).1))
+      = (B : Ks.R N) * ((2 : Ks.R N) ^ b * (colVal N ((2 : Ks.R N) ^ b) a0
+          + ∑ i ∈ Finset.range (min s.length as.length), Ks.ι N (s.getD i []) * colVal N ((2 : Ks.R N) ^ b) (as.getD i [])) * constVal N ((2 : Ks.R N) ^ b) cst)
+        + ((2 : Ks.R N) ^ b) ^ (sa + cst.length - (cnvOffsetSplit b off).1 - rs) * Ks.ι N (C02L.errTo (min as.length s.length) s E) := by
+  have hm : ((a0 :: as).map (fun x => cnvByConstCol N rs (cnvOffsetSplit b off).1 x cst)).mapM
+      (fun c => bigNormalizeOff big128 N rb rs (cnvOffsetSplit b off).2 c b) = some res := by
+    rw [← mapM_comp]
+    exact h
+  have hwf : ∀ c ∈ (a0 :: as).map (fun x => cnvByConstCol N rs (cnvOffsetSplit b off).1 x cst), C02L.ColWF N rs c := by
+    intro c hc
+    obtain ⟨x, hx, rfl⟩ := List.mem_map.mp hc
+    apply cnvByConstCol_wf
+    rcases List.mem_cons.mp hx with e | e
+    · rw [e]; exact hx0
+    · exact hxs x e
+  have hne : (a0 :: as).map (fun x => cnvByConstCol N rs (cnvOffsetSplit b off).1 x cst) ≠ [] := by simp
+  have hacc : C02L.GWF N (Ks.mkCt b N ((a0 :: as).map (fun x => cnvByConstCol N rs (cnvOffsetSplit b off).1 x cst))) := by
+    refine ⟨rfl, hne, ?_⟩
+    intro c hc
+    have e : (Ks.mkCt b N ((a0 :: as).map (fun x => cnvByConstCol N rs (cnvOffsetSplit b off).1 x cst))).size = rs := by
+      simp [GLWE.size, Ks.mkCt, Core.cnvByConstCol]
+    rw [e]
+    exact hwf c hc
+  have h1 := mapM_kernel_phase_modulo_norm _ rb b _ res hm hres hacc A B E hE (by
+    intro i hi C hC
+    exact hK i (by simpa using hi) C hC) s
+  have e1 : ((a0 :: as).map (fun x => cnvByConstCol N rs (cnvOffsetSplit b off).1 x cst)).length - 1 = as.length := by simp
+  rw [e1] at h1
+  have h2 := phase_norm_compose N hN rb b _ s res _ hne hwf A B _ (C02L.errTo_length _ s E hE) h1
+  have h3 := mul_const_assign_phase_value N hN s a0 as cst (cnvOffsetSplit b off).1 sa rs ((2 : Ks.R N) ^ b) h0 hall hx0 hxs hsa hsb hhi hR
+  linear_combination (((2 : Ks.R N) ^ b) ^ (sa + cst.length - (cnvOffsetSplit b off).1 - rs)) * h2 + (B : Ks.R N) * h3
+
+example (s : List Poly) :
+    ((2 : Ks.R 1) ^ 4) ^ (2 + [(2 : Int)].length - (cnvOffsetSplit 4 4).1 - 2) * (((1 : Int) : Ks.R 1) * Ks.ι 1 (C02L.valP 4 1 (Core.Ops.phase s (Ks.mkCt 4 1 [[[6], [0]], [[2], [0]]]))))
+      + ((1 : Int) : Ks.R 1) * (∑ k ∈ Finset.Ico 2 (2 + [(2 : Int)].length - (cnvOffsetSplit 4 4).1),
+          Ks.ι 1 (Ks.phaseRow s (((([[3], [0]] : Col) :: [[[1], [0]]]).map (fun x => Core.cnvByConstCol 1 (2 + [(2 : Int)].length - (cnvOffsetSplit 4 4).1) (cnvOffsetSplit 4 4).1 x [2])).map
+            (fun col => limbOr0 1 col k))) * ((2 : Ks.R 1) ^ 4) ^ (2 + [(2 : Int)].length - (cnvOffsetSplit 4 4).1 - 1 - k)
+        + ((2 : Ks.R 1) ^ 4) ^ (2 + [(2 : Int)].length - (cnvOffsetSplit 4 4).1) * (constTop 1 ((2 : Ks.R 1) ^ 4) [[3], [0]] [2] (cnvOffsetSplit 4 4).1
+          + ∑ i ∈ Finset.range (min s.length [([[1], [0]] : Col)].length), Ks.ι 1 (s.getD i []) * constTop 1 ((2 : Ks.R 1) ^ 4) (([[[1], [0]]] : List Col).getD i []) [2] (cnvOffsetSplit 4 4).1))
+      = ((1 : Int) : Ks.R 1) * ((2 : Ks.R 1) ^ 4 * (colVal 1 ((2 : Ks.R 1) ^ 4) [[3], [0]]
+          + ∑ i ∈ Finset.range (min s.length [([[1], [0]] : Col)].length), Ks.ι 1 (s.getD i []) * colVal 1 ((2 : Ks.R 1) ^ 4) (([[[1], [0]]] : List Col).getD i [])) * constVal 1 ((2 : Ks.R 1) ^ 4) [2])
+        + ((2 : Ks.R 1) ^ 4) ^ (2 + [(2 : Int)].length - (cnvOffsetSplit 4 4).1 - 2) * Ks.ι 1 (C02L.errTo (min [([[1], [0]] : Col)].length s.length) s (fun _ => [0])) :=
+  mul_const_assign_decrypts (N := 1) (by decide) false 4 2 4 4 2 [[3], [0]] [[[1], [0]]] [2] [[[6], [0]], [[2], [0]]]
+    (by decide) rfl (by decide) (by decide) (by decide) (by decide) (by decide) (by decide) (by decide) (by decide) 1 1 (fun _ => [0]) (fun _ => rfl)
+    (by
+      intro i hi C hC
+      have hi' : i = 0 ∨ i = 1 := by simp at hi; omega
+      rcases hi' with rfl | rfl
+      · have e : bigNormalizeOff false 1 4 2 (cnvOffsetSplit 4 4).2 (((([[3], [0]] : Col) :: [[[1], [0]]]).map (fun x => Core.cnvByConstCol 1
+            2 (cnvOffsetSplit 4 4).1 x [2])).getD 0 []) 4 = some [[6], [0]] := by decide
+        have hC' := e.symm.trans hC; injection hC' with hC'; subst hC'; decide
+      · have e : bigNormalizeOff false 1 4 2 (cnvOffsetSplit 4 4).2 (((([[3], [0]] : Col) :: [[[1], [0]]]).map (fun x => Core.cnvByConstCol 1
+            2 (cnvOffsetSplit 4 4).1 x [2])).getD 1 []) 4 = some [[2], [0]] := by decide
+        have hC' := e.symm.trans hC; injection hC' with hC'; subst hC'; decide) s
 /-- **`mul_plain_decrypts`** — `glwe_mul_plain`, same composed statement: the operands entering the value are the masked ones
 (`cnv_prepare_left/right`, `mask_keeps_top_bits`). -/
 theorem mul_plain_decrypts {N : Nat} (hN : 0 < N) (big128 : Bool) (rb rs off b sa : Nat) (a0 : Col) (as : List Col) (aK : Nat) (pt : Col) (bK : Nat)
